@@ -689,16 +689,23 @@ def apply_image_normalization(
     if np.all(observation_space.high == 1) and np.all(observation_space.low == 0):
         return observation
 
+    # NOTE: the bounds are converted to floating point before anything is subtracted: in the
+    # dtype of an integer Box (or of an integer observation) the range high - low can wrap
+    # around, e.g. int8 Box(-128, 127): 127 - (-128) == -1
     if isinstance(observation, torch.Tensor):
-        low = torch.tensor(
-            observation_space.low, device=observation.device, dtype=observation.dtype
-        )
+        dtype = observation.dtype if observation.is_floating_point() else torch.float32
+        low = torch.tensor(observation_space.low, device=observation.device, dtype=dtype)
         high = torch.tensor(
-            observation_space.high, device=observation.device, dtype=observation.dtype
+            observation_space.high, device=observation.device, dtype=dtype
         )
     else:
-        low = observation_space.low
-        high = observation_space.high
+        dtype = (
+            observation.dtype
+            if np.issubdtype(np.asarray(observation).dtype, np.floating)
+            else np.float32
+        )
+        low = observation_space.low.astype(dtype)
+        high = observation_space.high.astype(dtype)
 
     return (observation - low) / (high - low)
 
